@@ -505,8 +505,30 @@ static void run_case(Case &c)
         int nkeys = r.chance(0.5) ? r.range(2, 5) : r.range(6, 24);
         if(mode == "c05") nkeys = r.range(2, 4 + x.chips);    // keep polyphony mostly below the limit
         for(int i = 0; i < n; i++) ops.push_back(gen_op(r, mode, nkeys, true));
+        if(g_w.optnum("pressure", 0))
+        {   // polyphony pressure on one chip: more keys than chip channels, pedals held, few timbres, hardly any audio in
+            // between and nothing that empties the chip -> channel stealing, arpeggio sharing and evacuation all the time
+            x.chips = 1; ops.clear();
+            nkeys = r.range(5, 10);
+            static const int progs[] = {0, 12, 0, 12, 1, 30, 81};
+            for(int i = 0; i < n; i++)
+            {
+                Op o = gen_op(r, mode, nkeys, false);
+                switch(o.kind)
+                {
+                case OP_PANIC: case OP_RESETSTATE: case OP_CC123: case OP_CC120: case OP_CC121: case OP_SYSEX: case OP_ARP: case OP_INSEDIT: case OP_CTRL:
+                    if(r.chance(0.9)) { o.kind = r.chance(0.7) ? OP_ON : OP_CC64; o.a = o.kind == OP_ON ? ((o.ch == 9) ? 36 : 60) + (int)r.below((uint32_t)nkeys) : (r.chance(0.7) ? 127 : 0); o.b = 100; }
+                    break;
+                case OP_GEN: if(r.chance(0.85)) o.a = (int)r.below(2); break;
+                case OP_PROG: o.a = r.pick(progs); break;
+                default: break;
+                }
+                ops.push_back(o);
+            }
+        }
     }
     bool arp = (mode == "c04" || mode == "c06") && r.chance(0.5) && g_w.stage.compare(0, 10, "exhaustive") != 0;
+    if(g_w.optnum("pressure", 0)) arp = r.chance(0.85);
     if(g_w.optnum("shrink", 0))
     {   // delta-debugging of the history for the first violation key (development aid: --only K --opt shrink=1)
         std::vector<std::string> keys; std::string target;
